@@ -74,6 +74,20 @@ NOTES.update({
     "C20_m": "a fresh component object per class attachment: one object attached to several classes (a serial names one object)",
     "C20_n": "the tag argument was either given or omitted: `tag=None` spelled out, by keyword and by position",
 })
+NOTES.update({
+    "C03_o": "the explicit calls were only used on residents: `register_raw` / `deregister_raw` on their own, also for agents that are not resident; World!JoinHalfway models the join that meets a hand-registered component",
+    "C07_o": "no cell layer in the stochastic models: a resource layer built from one raster the program keeps, eaten from in place, two copies of the model in one process",
+    "C07_p": "mode strings were literals (interned, identical objects): the mode is put together at run time; a run that raises is now an event, not a machinery failure",
+    "C09_o": "C09's worlds only had callable / integer-list / constant components: mixed lists and lists of tuples",
+    "C09_p": "scalar constants only in C09's worlds: list-like constants, as long as the number of cells and of unrelated length",
+    "C11_o": "small-valued generators only: a generator whose arithmetic passes through numbers far beyond 64 bits",
+    "C11_p": "generators were plain two-argument lambdas: bound defaults (`k=k`), functools.partial, objects with __call__",
+    "C15_o": "collector selection was one name or two names: a list holding one name (result shape logged and checked)",
+    "C15_p": "NOT detected - outside what the statement fixes: with one process it demands that 'the results follow product order'; repetition-major (as implemented) and combination-major order both do, and the specification accepts both (stated assumption of C15)",
+    "C17_p": "collectors were registered first or last: registered between two ordinary systems",
+    "C18_o": "class names were unique across modules: classes of the same name in the fixtures module and in `__main__`, the class actually used is logged and checked",
+    "C20_p": "instance tags were read right after creation: every second default-tag instance is first looked at after the next change of a class default",
+})
 ROUNDS = "abcdefghijklmnopqrstuvwxyz"
 
 
@@ -105,9 +119,9 @@ def main():
         firsts[rnd] = firsts.get(rnd, 0) + (1 if missed else 0)
     head = ("\n### 11.5 Independently seeded changes (`/verif/seeded/<id>/`)\n\n"
             f"{total} changes were produced in {max(firsts)} rounds by fresh sub-agents that saw only the text of one property and a scratch worktree "
-            "(two per property and round; ids `_a`,`_b` = round 1, `_c`,`_d` = round 2, `_e`,`_f` = round 3, `_g`,`_h` = round 4, `_i`,`_j` = round 5, `_k`,`_l` = round 6, `_m`,`_n` = round 7; the agents of later rounds were told "
+            "(two per property and round; ids `_a`,`_b` = round 1, `_c`,`_d` = round 2, `_e`,`_f` = round 3, `_g`,`_h` = round 4, `_i`,`_j` = round 5, `_k`,`_l` = round 6, `_m`,`_n` = round 7, `_o`,`_p` = round 8; the agents of later rounds were told "
             "what the earlier rounds had produced and asked for something different; round 4 was asked to stay strictly inside the quantifier text, "
-            "round 5 to look for the least obvious failure, round 6 to prefer code no earlier change had touched, round 7 to look for interactions of two features and boundary values). Each passes the 110 tests, and its demonstration fails with the change and passes without it "
+            "round 5 to look for the least obvious failure, round 6 to prefer code no earlier change had touched, round 7 to look for interactions of two features and boundary values, round 8 to write refactorings and small features that drop something the old code did implicitly). Each passes the 110 tests, and its demonstration fails with the change and passes without it "
             "(re-confirmed by `tools/seedcheck.py import`). `tools/seedcheck.py run` applies a patch to `/repo`, runs the property's quick check "
             "and undoes it (`git checkout -- .`); `run --scratch` does the same on a scratch copy (`VERIF_REPO`) so that runs can go in parallel. "
             f"**{own} of the {total} are detected by the quick check of their own property** (`result_quick.json`, current checks), {other} by the check of the "
